@@ -519,7 +519,8 @@ pub fn framing_variant(rng: &mut Rng, req: &mut Req) -> &'static str {
         return "nobody";
     }
     match rng.below(5) {
-        0 => {
+        // one-byte chunks only for small bodies (every chunk is an event in the handler's log)
+        0 if req.body.len() <= 2000 => {
             req.chunked = Some(vec![1]);
             "chunked-1"
         }
@@ -736,9 +737,14 @@ pub fn run(seed: u64, w: &Work) -> Report {
          multiplexed on two connections by hyper's h2 client) on many concurrent keep-alive connections against tokio worker counts 1/2/4/16; the echo (typed args + method, URI, uid header, peer \
          address) must equal what was sent; class = (kind, value classes, framing, pipeline depth)",
     );
-    let log = EvLog::new();
+    let mut maxc = 0i64;
+    let mut hist = std::collections::BTreeMap::new();
+    let mut total_events = 0u64;
+    let mut total_entries = 0u64;
     for &workers in &w.workers {
         for mode in [HandlerTaskMode::Detached, HandlerTaskMode::CancelOnDisconnect] {
+            // one event log per server, analysed and dropped when the server is closed
+            let log = EvLog::new();
             let ctx = Ctx::new(log.clone());
             let cfg = SrvCfg { mode, body_max: 1 << 20, versioned: None, workers };
             let mut srv = match start(echo_api(&[]), ctx, &cfg) {
@@ -867,15 +873,11 @@ pub fn run(seed: u64, w: &Work) -> Report {
             // on few connections
             rep.merge(run_h2(seed ^ workers as u64, addr, &w.kinds, 2, w.threads.min(32), (w.batches / 4).max(8), mode_tag));
             let _ = srv.close();
-        }
-    }
-    // concurrency actually observed: sweep over ENTER/DONE
-    let evs = log.snapshot();
-    let mut cur = 0i64;
-    let mut maxc = 0i64;
-    let mut hist = std::collections::BTreeMap::new();
-    let mut enters = std::collections::HashMap::new();
-    for e in &evs {
+            // concurrency actually observed on this server: sweep over ENTER/END
+            let evs = log.snapshot();
+            let mut cur = 0i64;
+            let mut enters = std::collections::HashMap::new();
+            for e in &evs {
         match e.kind {
             "H_ENTER" => {
                 cur += 1;
@@ -884,17 +886,21 @@ pub fn run(seed: u64, w: &Work) -> Report {
                 *enters.entry(e.uid).or_insert(0u32) += 1;
             }
             "H_END" => cur -= 1,
-            _ => {}
+                    _ => {}
+                }
+            }
+            total_events += evs.len() as u64;
+            total_entries += enters.len() as u64;
+            for (uid, n) in enters {
+                if n > 1 && uid != 0 {
+                    rep.violate("C09:handler-entered-twice-for-one-request", json!({"uid": uid, "entries": n}));
+                }
+            }
         }
     }
-    rep.count("events", evs.len() as u64);
-    rep.count("handler_entries", enters.len() as u64);
+    rep.count("events", total_events);
+    rep.count("handler_entries", total_entries);
     rep.extra.insert("max_observed_concurrency".into(), json!(maxc));
     rep.extra.insert("concurrency_at_entry_histogram".into(), json!(hist));
-    for (uid, n) in enters {
-        if n > 1 && uid != 0 {
-            rep.violate("C09:handler-entered-twice-for-one-request", json!({"uid": uid, "entries": n}));
-        }
-    }
     rep
 }
